@@ -315,7 +315,6 @@ func Yield(label string) {
 	s.yieldUntil(nil, label)
 }
 
-
 // Await is a scheduling point before an operation that is enabled iff pred().
 // Outside a controlled execution pred must hold (single-threaded use).
 func Await(pred func() bool, label string) {
@@ -349,7 +348,7 @@ func Choose(n int, label string) int {
 func Go(f func()) {
 	s := active
 	if s == nil {
-		go f()
+		goFree(f)
 		return
 	}
 	if s.aborted {
@@ -365,7 +364,7 @@ func Go(f func()) {
 func GoNamed(name string, f func()) {
 	s := active
 	if s == nil {
-		go f()
+		goFree(f)
 		return
 	}
 	if s.aborted {
@@ -408,3 +407,20 @@ func Logf(format string, a ...any) {
 		s.logf(format, a...)
 	}
 }
+
+// free-running mode: outside a controlled execution Go spawns real goroutines;
+// WaitFree joins them (used by the race companion, which runs the same harness
+// bodies without the scheduler).
+var freeWG sync.WaitGroup
+
+func goFree(f func()) {
+	freeWG.Add(1)
+	go func() {
+		defer freeWG.Done()
+		f()
+	}()
+}
+
+// WaitFree waits for the goroutines spawned by Go outside a controlled
+// execution.
+func WaitFree() { freeWG.Wait() }
